@@ -210,6 +210,41 @@ def quota_gate(run):
             + ' '.join(l for l in out.split('\n') if 'error' in l.lower())[:400]]
 
 
+def formula_gate(run):
+    """C06 / C08 translator: the re-weighting formula of every Gregory rule and the keep-factor update of meek.py / meek_prf.py,
+    regenerated from the source (harness/gen_formula.py) and kernel-checked equal to the programs of lean/Props/C06Prog.lean."""
+    import gen_formula, subprocess, re
+    cov = run.coverage
+    try:
+        fs = gen_formula.formulas(common.REPO)
+    except gen_formula.TranslationError as e:
+        cov['translator_formulas'] = dict(status='refused', why=str(e))
+        return ['translator harness/gen_formula.py refused the source: %s' % e]
+    except Exception as e:
+        cov['translator_formulas'] = dict(status='error', why='%s: %s' % (type(e).__name__, e))
+        return ['translator harness/gen_formula.py failed: %s: %s' % (type(e).__name__, e)]
+    gdir = os.path.join(common.LEAN, '.lake', 'gen')
+    os.makedirs(gdir, exist_ok=True)
+    path = os.path.join(gdir, 'Formula_%d.lean' % os.getpid())
+    open(path, 'w').write(gen_formula.lean_file(fs))
+    try:
+        r = subprocess.run(['lake', 'env', 'lean', path], cwd=common.LEAN, capture_output=True, text=True, timeout=600)
+        out = r.stdout + r.stderr
+    finally:
+        try: os.remove(path)
+        except OSError: pass
+    ok = r.returncode == 0 and 'error' not in out.lower()
+    axioms_ok = all(set(a.strip() for a in m.split(',') if a.strip()) <= common.STD_AXIOMS
+                    for m in re.findall(r"depends on axioms: \[([^\]]*)\]", out, flags=re.S))
+    cov['translator_formulas'] = dict(status='checked' if ok and axioms_ok else 'mismatch', formulas=sorted(fs),
+                                      obligation='Gen.<rule>Rew = C06.rewMulDivProg / rewMuldivDownProg, Gen.<rule>KfUpdate = C06.kfUpdateProg by rfl; '
+                                                 'rewMulDiv_is_program, rewMuldivDown_is_program, *_uses_program (lean/Props/C06Prog.lean) tie them to the model')
+    if ok and axioms_ok:
+        return []
+    return ['the re-weighting / keep-factor formula of droop/rules/*.py, translated, is no longer the program lean/Props/C06Prog.lean ties to the model: '
+            + ' '.join(l for l in out.split('\n') if 'error' in l.lower())[:400]]
+
+
 def count_property(run, spec):
     t0 = time.time()
     broken = lean_gate(run, THEOREMS.get(run.prop, []))
@@ -434,13 +469,13 @@ def C04(run):
 
 @prop('C06')
 def C06(run):
-    count_property(run, dict(rules=gen.GREGORY, keys=['C06', 'C06r'], proj=proj_C06, quick=5000, thorough=150000,
+    count_property(run, dict(rules=gen.GREGORY, keys=['C06', 'C06r'], proj=proj_C06, quick=5000, thorough=150000, extra_gate=formula_gate,
                              families=['plain', 'chains', 'on_quota', 'big', 'sure_losers']))
 
 
 @prop('C08')
 def C08(run):
-    count_property(run, dict(rules=gen.MEEKFAM, keys=['C08c', 'C08t', 'C08k'], proj=proj_C08, lowprec=0.05, quick=4000,
+    count_property(run, dict(rules=gen.MEEKFAM, keys=['C08c', 'C08t', 'C08k'], proj=proj_C08, lowprec=0.05, quick=4000, extra_gate=formula_gate,
                              thorough=100000, equal_ranks=0.35))
 
 
